@@ -44,7 +44,7 @@ let parse_event (tok : string) : event =
   | _ -> failwith ("event " ^ tok)
 
 (* "BW,i,k:target:tag+k:target:tag/..." : block on call i while the peer delivers the batches *)
-type item = Ev of event | SendI of event * string | BW of nat * pmsg list list | BT of nat * int * tv list * pmsg list list
+type item = Ev of event | SendI of event * string | BW of nat * pmsg list list | BT of nat * int * tv list * pmsg list list | TT of nat * nat * pmsg list
 let parse_pmsg (t : string) : pmsg =
   match String.split_on_char ':' t with
   | [k; target; tag] ->
@@ -56,6 +56,8 @@ let parse_item (tok : string) : item =
   | ["BW"; i; spec] ->
       BW (nat_of_int (int_of_string i),
           List.map (fun b -> List.map parse_pmsg (String.split_on_char '+' b)) (String.split_on_char '/' spec))
+  | ["TT"; a; b; spec] ->
+      TT (nat_of_int (int_of_string a), nat_of_int (int_of_string b), List.map parse_pmsg (String.split_on_char '+' spec))
   | ["BT"; i; arg; clocks; arr] ->
       let cl = List.map (fun c -> match String.split_on_char '.' c with
                                   | [a; b] -> { tv_sec = z_of_int (int_of_string a); tv_usec = z_of_int (int_of_string b) }
@@ -115,6 +117,18 @@ let run_line single toks =
                        | SendI (e, iv) -> let (a, b) = (if single then step1 else step) !st e in
                            (a, b, if List.exists (function OSent (Some _) -> true | _ -> false) b then iv else "")
                        | BW (i, bs) -> let (a, b) = block_with !st i bs in (a, b, "")
+                       | TT (a, b, msgs) ->
+                           let ncalls = List.length !st.calls in
+                           if int_of_nat a >= ncalls || int_of_nat b >= ncalls || a = b || !st.peer_closed || not !st.connected then (!st, [], "TT-")
+                           else begin
+                             let (ts, obs) = two_threads true !st a b msgs in
+                             let per k = String.concat "" (List.filter_map (function
+                                 | TObs (j, o) when int_of_nat j = k -> Some (fmt_obs o)
+                                 | TPoll j when int_of_nat j = k -> Some "q-1"
+                                 | TSleep j when int_of_nat j = k -> Some "!sleep"
+                                 | _ -> None) obs) in
+                             (ts.ts_base, [], Printf.sprintf "A[%s]B[%s]" (per 0) (per 1))
+                           end
                        | BT (i, arg, cl, ar) ->
                            let r = block_timed !st i (z_of_int arg) cl ar in
                            (r.t_state, r.t_obs,
